@@ -552,23 +552,79 @@ def r_closedset(idx, rep, rule="R-CLOSEDSET"):
     for name in want:
         f = idx.func("distance3d.containment_test::" + name)
         pm = parent_map(f.node)
-        excl_names = set()
-        # names used to assign False into the result mask are exclusion masks
-        for st in iter_stmts(f.node.body):
-            if isinstance(st, ast.Assign) and isinstance(st.targets[0], ast.Subscript) and const(st.value) is False:
-                for n in ast.walk(st.targets[0].slice):
-                    if isinstance(n, ast.Name):
-                        excl_names.add(n.id)
-        # propagate through simple derivations (inside_z = logical_not(outside_z) is inclusion; indices derived from masks)
-        derived = True
-        while derived:
-            derived = False
-            for st in iter_stmts(f.node.body):
-                if isinstance(st, ast.Assign) and isinstance(st.targets[0], ast.Name) and st.targets[0].id in excl_names:
-                    for n in ast.walk(st.value):
-                        if isinstance(n, ast.Name) and n.id not in excl_names and isinstance(st.value, (ast.Subscript, ast.Name)):
-                            excl_names.add(n.id)
-                            derived = True
+        # role of a comparison = polarity with which it reaches the returned mask: +1 the points that satisfy it are (so far) admitted, -1 they are
+        # excluded.  Negations flip it (np.logical_not, not, ~, `mask[sel] = False`, `if np.any(sel): mask[i] = False`); and / or / all / any / where
+        # and plain naming keep it.  Whatever the predicate is organised like (flag array, early mask algebra, helper temporaries), an admitting
+        # comparison must be non-strict and an excluding one strict.
+        MONO = ("np.logical_and", "np.logical_or", "np.all", "np.any", "np.where", "np.nonzero", "np.flatnonzero", "np.array", "np.asarray", "all", "any")
+        uses_memo = {}
+
+        def flows(node, depth=0):
+            """set of polarities with which the boolean value of `node` reaches the result"""
+            if depth > 12:
+                return {None}
+            par = pm.get(node)
+            if par is None:
+                return {None}
+            if isinstance(par, ast.Return):
+                return {+1}
+            if isinstance(par, ast.UnaryOp) and isinstance(par.op, (ast.Not, ast.Invert)):
+                return {None if x is None else -x for x in flows(par, depth + 1)}
+            if isinstance(par, (ast.BoolOp, ast.Tuple, ast.List, ast.Subscript, ast.Starred, ast.keyword, ast.Index if hasattr(ast, "Index") else ast.Tuple)):
+                if isinstance(par, ast.Subscript) and isinstance(par.ctx, ast.Store):
+                    # node is (part of) the selector of a store  X[sel] = value
+                    st_ = pm.get(par)
+                    if isinstance(st_, ast.Assign):
+                        if const(st_.value) is False:
+                            return {None if x is None else -x for x in name_flows(u(par.value), st_, depth + 1)}
+                        if const(st_.value) is True:
+                            return name_flows(u(par.value), st_, depth + 1)
+                        return {None} if node is not par.slice and node not in ast.walk(par.slice) else name_flows_sel(par, st_, depth + 1)
+                    return {None}
+                return flows(par, depth + 1)
+            if isinstance(par, ast.BinOp) and isinstance(par.op, (ast.BitAnd, ast.BitOr)):
+                return flows(par, depth + 1)
+            if isinstance(par, ast.Call):
+                cn = call_name(par) or ""
+                if cn == "np.logical_not":
+                    return {None if x is None else -x for x in flows(par, depth + 1)}
+                if cn in MONO:
+                    return flows(par, depth + 1)
+                return {None}
+            if isinstance(par, ast.Assign) and node is par.value:
+                t = par.targets[0]
+                if isinstance(t, ast.Name):
+                    return name_flows(t.id, par, depth + 1)
+                if isinstance(t, ast.Subscript):
+                    return name_flows(u(t.value), par, depth + 1)          # X[idx] = <mask>: the mask flows into X
+                return {None}
+            if isinstance(par, ast.AugAssign) and node is par.value and isinstance(par.op, (ast.BitAnd, ast.BitOr)):
+                return name_flows(u(par.target), par, depth + 1)
+            if isinstance(par, ast.If) and node is par.test:
+                out = set()
+                for s_ in iter_stmts(par.body):
+                    if isinstance(s_, ast.Assign) and isinstance(s_.targets[0], ast.Subscript) and const(s_.value) is False:
+                        out |= {None if x is None else -x for x in name_flows(u(s_.targets[0].value), s_, depth + 1)}
+                    elif isinstance(s_, ast.Assign) and isinstance(s_.targets[0], ast.Subscript) and const(s_.value) is True:
+                        out |= name_flows(u(s_.targets[0].value), s_, depth + 1)
+                return out or {None}
+            if isinstance(par, ast.expr):
+                return {None}
+            return {None}
+
+        def name_flows_sel(sub, st_, depth):
+            return {None}
+
+        def name_flows(nm, after, depth):
+            """polarities with which the value of the (array) name reaches the result"""
+            out = set()
+            for n2 in ast.walk(f.node):
+                if isinstance(n2, ast.Name) and n2.id == nm and isinstance(n2.ctx, ast.Load) and getattr(n2, "lineno", 0) >= getattr(after, "lineno", 0) and n2 is not after:
+                    par2 = pm.get(n2)
+                    if isinstance(par2, ast.Subscript) and par2.value is n2 and isinstance(par2.ctx, ast.Store):
+                        continue
+                    out |= flows(n2, depth + 1)
+            return out or {None}
         n_cmp = 0
         for n in ast.walk(f.node):
             if not isinstance(n, ast.Compare) or len(n.ops) != 1:
@@ -576,37 +632,13 @@ def r_closedset(idx, rep, rule="R-CLOSEDSET"):
             op, a, b = compare_triples(n)[0]
             if op not in ("<", "<=", ">", ">="):
                 continue
-            # role: exclusion if it flows into an index used to assign False, or into np.any(...) guarding a False store
-            st = n
-            while st in pm and not isinstance(st, ast.stmt):
-                st = pm[st]
-            role = None
-            if isinstance(st, ast.Return):
-                role = "incl"
-            elif isinstance(st, ast.Assign) and isinstance(st.targets[0], ast.Subscript) and const(st.value) is False:
-                role = "excl"
-            elif isinstance(st, ast.Assign) and isinstance(st.targets[0], ast.Name):
-                role = "excl" if st.targets[0].id in excl_names else None
-                if role is None and any(isinstance(r_, ast.Return) and isinstance(r_.value, ast.Name) and r_.value.id == st.targets[0].id for r_ in ast.walk(f.node)) \
-                        and sum(1 for x in ast.walk(f.node) if isinstance(x, ast.Name) and x.id == st.targets[0].id) == 2:
-                    role = "incl"          # `inside = <comparison>; return inside`
-                if role is None:
-                    # used later through logical_not -> inclusion of the complement: still an exclusion comparison
-                    tname = st.targets[0].id
-                    for s2 in iter_stmts(f.node.body):
-                        if isinstance(s2, ast.Assign) and isinstance(s2.value, ast.Call) and call_name(s2.value) == "np.logical_not" \
-                                and tname in _names(s2.value):
-                            role = "excl"
-            elif isinstance(st, ast.If):
-                # if np.any(x > 0): contained[i] = False
-                falses = [s for s in iter_stmts(st.body) if isinstance(s, ast.Assign) and const(s.value) is False]
-                role = "excl" if falses else None
-            if role is None:
+            pol = flows(n) - {None}
+            if len(pol) != 1:
                 continue
+            role = "incl" if pol == {+1} else "excl"
             n_cmp += 1
             key = "distance3d.containment_test::%s|%s (%s)" % (name, u(n), role)
             where = "%s:%d" % (mod.relpath, n.lineno)
-            # normalise: which side is the "point quantity"?  inclusion: quantity <= bound ; exclusion: quantity > bound
             if role == "incl":
                 rep.check(op in ("<=", ">="), rule, key, where,
                           "inclusion test `%s` is strict: boundary points of the closed shape are reported as outside" % u(n), "non-strict")
@@ -614,7 +646,8 @@ def r_closedset(idx, rep, rule="R-CLOSEDSET"):
                 rep.check(op in ("<", ">"), rule, key, where,
                           "exclusion mask `%s` is non-strict: boundary points of the closed shape are excluded" % u(n), "strict")
         if n_cmp == 0:
-            rep.error("R-CLOSEDSET found no classified comparison in %s" % name)
+            rep.unknown(rule, "distance3d.containment_test::%s|no comparison classified" % name, f.where,
+                        "no comparison of %s could be followed to the returned mask: open / closed boundary not decided for this predicate" % name)
         # batch axis: reductions only over axis=1
         for c in calls(f.node):
             cn = call_name(c) or ""
